@@ -45,6 +45,10 @@ MOLECULES = {
         (['[H]@1C(F)=%0', '%0=C@2F'], 'chain'),
         (['[H]@1C(%0)=C@2F', 'F%0'], 'chain'),
     ]),
+    'thioether_chiral': ('CSc1ccc(cc1)[C;x=@x](F)Cl', [    # a label written after an aliphatic atom + aromatic atom pair
+        (['C%0', '%0Sc1ccc(cc1)[C;x=@x](F)Cl'], 'chain'),
+        (['CSc1ccc(cc1)[C;x=@x](F)%0', 'Cl%0'], 'chain'),
+    ]),
     'chiral_centre': ('C[C;x=@x](F)(Cl)N', [
         (['C%0', '%0[C;x=@x](F)(Cl)N'], 'chain'),
         (['C[C;x=@x](%0)(Cl)N', 'F%0'], 'chain'),
@@ -72,7 +76,7 @@ def chirality_signature(moldata):
     return sorted([nodes[n]['chiral'], nodes[n].get('element'), sorted(nb[n])] for n in nodes if 'chiral' in nodes[n])
 
 
-QUICK = ['difluoroethene', 'difluorobutene', 'butene', 'chiral_centre', 'branched_fluorobutene', 'chlorobutene', 'chiral_and_ez', 'chlorooctene', 'hydrogen_marked']
+QUICK = ['difluoroethene', 'difluorobutene', 'butene', 'chiral_centre', 'branched_fluorobutene', 'chlorobutene', 'chiral_and_ez', 'chlorooctene', 'hydrogen_marked', 'thioether_chiral']
 
 
 def ez_classes(moldata):
@@ -254,7 +258,7 @@ class C15(core.Prop):
             cl.append(('one_labelled_centre', len(labelled) == 1))
             if len(labelled) == 1:
                 n = labelled[0]
-                want = sorted(['C', 'F', 'Cl', 'N']) if shape['mol'] == 'chiral_centre' else sorted(['C', 'Cl', 'N', 'C'])
+                want = sorted({'chiral_centre': ['C', 'F', 'Cl', 'N'], 'thioether_chiral': ['C', 'F', 'Cl', 'H']}.get(shape['mol'], ['C', 'Cl', 'N', 'C']))
                 cl.append(('label_value', nodes[n]['chiral'] == inp['chir']))
                 cl.append(('label_on_atom_with_expected_neighbourhood', nodes[n].get('element') == 'C' and sorted(nb[n]) == want))
         return cl
